@@ -1031,7 +1031,15 @@ class _Tree(_ArithmeticMixin, _Base):
             min = self._to_key(min)
             bucket = self._findbucket(min)
         if bucket is not None:
-            return bucket.minKey(min)
+            try:
+                return bucket.minKey(min)
+            except ValueError:
+                # ``min`` lies in the gap behind the last key of the bucket
+                # the search led to: the answer is the first key of the
+                # next bucket, if there is one.
+                if min is _marker or min is None or bucket._next is None:
+                    raise
+                return bucket._next.minKey()
         raise ValueError('empty tree')
 
     def maxKey(self, max=_marker):
